@@ -47,7 +47,12 @@ class SqliteImpl(SqlImpl):
         elif val_type == Datetime() and cast.target_type == Date():
             return sqa.type_coerce(sqa.func.date(compiled_val), sqa.Date())
         elif val_type == Date() and cast.target_type == Datetime():
-            return sqa.type_coerce(sqa.func.datetime(compiled_val), sqa.DateTime())
+            # Datetimes are stored as text with microseconds. The text has to have the
+            # same form here, otherwise comparisons with other datetimes go wrong.
+            return sqa.type_coerce(
+                sqa.func.strftime("%Y-%m-%d %H:%M:%S.000000", compiled_val),
+                sqa.DateTime(),
+            )
 
         elif val_type.is_float() and cast.target_type == String():
             return sqa.case(
